@@ -840,7 +840,7 @@ func traceSteps(logPath, repoDir string, ti *TInfo, newIDs map[string]uint64, cu
 	}
 	q := func(p string) string { return `"` + p + `"` }
 	removing := map[string]bool{}
-	wroteMd := false
+	mdMoved := false
 	for _, ln := range strings.Split(string(data), "\n") {
 		m := lineRe.FindStringSubmatch(ln)
 		if m == nil {
@@ -854,7 +854,7 @@ func traceSteps(logPath, repoDir string, ti *TInfo, newIDs map[string]uint64, cu
 					continue // os.Remove tries rmdir after a failed unlink
 				}
 				steps = append(steps, "RmMd")
-				started, wroteMd = true, false
+				started, mdMoved = true, false
 				continue
 			}
 			for p, n := range outOf {
@@ -864,25 +864,40 @@ func traceSteps(logPath, repoDir string, ti *TInfo, newIDs map[string]uint64, cu
 				}
 			}
 		case "openat":
+			// fs.WriteFile: os.CreateTemp(dir, ".target_build_metadata_<name>") -> <md><random digits>, O_EXCL
+			if strings.Contains(args, `"`+md) && !strings.Contains(args, q(md)) && strings.Contains(args, "O_EXCL") && started {
+				steps = append(steps, "(MdTmp WCreate)")
+			}
 			if strings.Contains(args, q(md)) && strings.Contains(args, "O_CREAT") {
-				steps = append(steps, "CreateMd")
+				steps = append(steps, "CreateMdInPlace") // the pre-fix shape: not a constructor of the model, fails the comparison
 			}
 			if strings.Contains(args, q(fb)) && strings.Contains(args, "O_CREAT") {
 				steps = append(steps, "FbTrunc")
 			}
 		case "write":
-			if strings.Contains(args, "<"+absMd+">") && !wroteMd {
-				wroteMd = true
-				d := []string{}
-				if ti.Mod {
-					d = ti.DirOuts
-				}
-				steps = append(steps, lib.App("WriteMd", lib.StrList(d)))
+			if strings.Contains(args, "<"+absMd) && !strings.Contains(args, "<"+absMd+">") && started {
+				steps = append(steps, "(MdTmp (WWrite []))")
 			}
 			if strings.Contains(args, "<"+absFb+">") {
 				steps = append(steps, lib.App("FbWrite", cur.coq()))
 			}
+		case "close":
+			if strings.Contains(args, "<"+absMd) && !strings.Contains(args, "<"+absMd+">") && started && !mdMoved {
+				steps = append(steps, "(MdTmp WClose)")
+			}
+		case "fchmodat", "chmod":
+			if strings.Contains(args, `"`+md) && !strings.Contains(args, q(md)) && started {
+				steps = append(steps, "(MdTmp (WChmod "+lib.N(chmodMode(args))+"))")
+			}
 		case "renameat", "renameat2", "rename":
+			if strings.Contains(args, ", "+q(md)) && started {
+				mdMoved = true
+				d := []string{}
+				if ti.Mod {
+					d = ti.DirOuts
+				}
+				steps = append(steps, lib.App("MvMd", lib.StrList(d)))
+			}
 			for p, n := range outOf {
 				if strings.Contains(args, ", "+q(p)) && started {
 					removing[n] = false
@@ -906,6 +921,16 @@ func traceSteps(logPath, repoDir string, ti *TInfo, newIDs map[string]uint64, cu
 		}
 	}
 	return steps, started
+}
+
+var octRe = regexp.MustCompile(`, 0([0-7]+)\)?`)
+
+func chmodMode(args string) uint64 {
+	if m := octRe.FindStringSubmatch(args); m != nil {
+		v, _ := strconv.ParseUint(m[1], 8, 32)
+		return v
+	}
+	return 0
 }
 
 // ---- one repository -------------------------------------------------------------------------------
@@ -966,7 +991,7 @@ func curRec(ti *TInfo, ref *Obs) *Rec {
 func pathPoints(r *lib.Rng, tis []*TInfo) []Point {
 	var pts []Point
 	for _, ti := range tis {
-		for _, sc := range []string{"unlinkat", "openat", "write", "lsetxattr"} {
+		for _, sc := range []string{"unlinkat", "renameat", "lsetxattr"} {
 			pts = append(pts, Point{Mode: "path", Path: ti.mdPath(), Syscall: sc, When: 1})
 		}
 		for _, n := range ti.all() {
@@ -982,8 +1007,8 @@ func pathPoints(r *lib.Rng, tis []*TInfo) []Point {
 }
 
 func countPoint(r *lib.Rng) Point {
-	sc := lib.Pick(r, []string{"openat", "openat", "write", "close", "lsetxattr", "lsetxattr", "renameat", "unlinkat", "mkdirat", "linkat"})
-	max := map[string]int{"openat": 60, "write": 25, "close": 60, "lsetxattr": 10, "renameat": 5, "unlinkat": 12, "mkdirat": 10, "linkat": 4}[sc]
+	sc := lib.Pick(r, []string{"openat", "openat", "write", "close", "lsetxattr", "lsetxattr", "renameat", "unlinkat", "mkdirat", "linkat", "fchmodat"})
+	max := map[string]int{"openat": 60, "write": 25, "close": 60, "lsetxattr": 10, "renameat": 5, "unlinkat": 12, "mkdirat": 10, "linkat": 4, "fchmodat": 3}[sc]
 	return Point{Mode: "count", Syscall: sc, When: r.Range(1, max)}
 }
 
@@ -1306,6 +1331,37 @@ func firstLine(s, containing string) string {
 	return ""
 }
 
+// a corpus witness: the tree and the kill history on which the unchanged code failed before a fix
+type corpusWitness struct {
+	Class      string     `json:"class"`
+	What       string     `json:"what"`
+	FixedBy    string     `json:"fixed_by"`
+	Spec       *e2e.Spec  `json:"spec"`
+	Jobs       []crashJob `json:"jobs"`         // the history in terms of the code as it is now
+	PreFixJobs []crashJob `json:"pre_fix_jobs"` // the original kill points (run in the thorough tier; no longer reachable)
+}
+
+func loadCorpus(i int) *corpusWitness {
+	dir := os.Getenv("VERIF_DIR")
+	if dir == "" {
+		dir = "/verif"
+	}
+	files, _ := filepath.Glob(filepath.Join(dir, "corpus", "C32", "*.json"))
+	sort.Strings(files)
+	if i-1 >= len(files) {
+		return nil
+	}
+	data, err := os.ReadFile(files[i-1])
+	if err != nil {
+		return nil
+	}
+	var w corpusWitness
+	if json.Unmarshal(data, &w) != nil || w.Spec == nil {
+		return nil
+	}
+	return &w
+}
+
 func partP(c *lib.Ctx, base string) {
 	var replay struct {
 		Kind     string    `json:"kind"`
@@ -1346,6 +1402,17 @@ func partP(c *lib.Ctx, base string) {
 				adv = i + 1
 			}
 			spec := genSpec(r, adv)
+			var corpusJobs []crashJob
+			if adv > 0 {
+				// the pre-fix failing inputs (corpus/C32): same trees, kept in the stream so that a returning defect is a VIOLATION
+				if w := loadCorpus(adv); w != nil {
+					spec, corpusJobs = w.Spec, w.Jobs
+					c.Hist("corpus", w.Class)
+					if c.Thor {
+						corpusJobs = append(corpusJobs, w.PreFixJobs...)
+					}
+				}
+			}
 			tis := buildable(spec)
 			pts := pathPoints(r, tis)
 			next := func() Point {
@@ -1389,11 +1456,16 @@ func partP(c *lib.Ctx, base string) {
 				if k%2 == 1 && plain != nil {
 					ti = plain
 				}
-				sc := "write"
-				if k >= 2 {
-					sc = lib.Pick(r, []string{"write", "lsetxattr", "openat", "unlinkat"})
+				// the metadata file is now written through a temporary file: the window that existed before the fix
+				// (metadata created, not yet written) corresponds to a kill between RemoveAll and the rename
+				pt := Point{Mode: "path", Path: ti.mdPath(), Syscall: "renameat", When: 1}
+				switch {
+				case k == 1 || k%4 == 3:
+					pt = Point{Mode: "count", Syscall: "fchmodat", When: r.Range(1, 3)} // only WriteFile chmods: kill inside a metadata write
+				case k >= 2:
+					pt = Point{Mode: "path", Path: ti.mdPath(), Syscall: lib.Pick(r, []string{"renameat", "lsetxattr", "unlinkat"}), When: 1}
 				}
-				jobs = append(jobs, crashJob{Scenario: "forced", Point: Point{Mode: "path", Path: ti.mdPath(), Syscall: sc, When: 1}})
+				jobs = append(jobs, crashJob{Scenario: "forced", Point: pt})
 			}
 			// two kills in a row: first when the record reaches the first output, then in the metadata rewrite of the next build
 			for k := 0; k < nDouble; k++ {
@@ -1409,9 +1481,10 @@ func partP(c *lib.Ctx, base string) {
 				if k%2 == 1 {
 					p1 = Point{Mode: "path", Path: filepath.Join(mod.OutDir, all[len(all)-1]), Syscall: "lsetxattr", When: 2}
 				}
-				p2 := Point{Mode: "path", Path: mod.mdPath(), Syscall: "write", When: 1}
+				p2 := Point{Mode: "path", Path: mod.mdPath(), Syscall: "renameat", When: 1}
 				jobs = append(jobs, crashJob{Scenario: "double", Point: p1, Point2: &p2})
 			}
+			jobs = append(jobs, corpusJobs...)
 			plans = append(plans, repoPlan{spec, jobs, r})
 		}
 	}
@@ -1472,12 +1545,40 @@ func partP(c *lib.Ctx, base string) {
 	c.Note("plz: %d repositories, %d plz invocations, %d crash jobs in which plz was killed, %d in which the chosen point was not reached (plz finished; the oracle still ran)", len(plans), nplz, nkill, nno)
 }
 
+func dumpCorpus(dir string) {
+	must(os.MkdirAll(dir, 0o755))
+	r := lib.NewRng(1)
+	md := "plz-out/gen/q/.target_build_metadata_o"
+	w1 := corpusWitness{Class: "rebuild-of-current-target-killed-while-metadata-rewritten",
+		What:    "`plz build --rebuild` of an up-to-date target with output_dirs (and of a plain target) killed between os.Create and the write of .target_build_metadata_<name>: the next build trusted the current record next to the empty file and failed with `failed to load build metadata` (plain target: reported unchanged with an empty metadata file)",
+		FixedBy: "e0ea5c1", Spec: genSpec(r, 1),
+		Jobs: []crashJob{{Scenario: "forced", Point: Point{Mode: "path", Path: md, Syscall: "renameat", When: 1}},
+			{Scenario: "forced", Point: Point{Mode: "path", Path: "plz-out/gen/p/.target_build_metadata_t0", Syscall: "renameat", When: 1}}},
+		PreFixJobs: []crashJob{{Scenario: "forced", Point: Point{Mode: "path", Path: md, Syscall: "write", When: 1}},
+			{Scenario: "forced", Point: Point{Mode: "path", Path: "plz-out/gen/p/.target_build_metadata_t0", Syscall: "write", When: 1}}}}
+	p2 := Point{Mode: "path", Path: md, Syscall: "renameat", When: 1}
+	p2old := Point{Mode: "path", Path: md, Syscall: "write", When: 1}
+	w2 := corpusWitness{Class: "rebuild-of-current-target-killed-while-metadata-rewritten",
+		What:    "two kills without --rebuild: the first build killed on entry to the record lsetxattr of the output sorted after the declared one (_first carries the current record, a.txt not yet), the rebuild that the post-build check then starts killed between os.Create and the write of the metadata file: the third build failed with `failed to load build metadata`",
+		FixedBy: "e0ea5c1", Spec: genSpec(r, 2),
+		Jobs:       []crashJob{{Scenario: "double", Point: Point{Mode: "path", Path: "plz-out/gen/q/a.txt", Syscall: "lsetxattr", When: 2}, Point2: &p2}},
+		PreFixJobs: []crashJob{{Scenario: "double", Point: Point{Mode: "path", Path: "plz-out/gen/q/a.txt", Syscall: "lsetxattr", When: 2}, Point2: &p2old}}}
+	for i, w := range []corpusWitness{w1, w2} {
+		d, _ := json.MarshalIndent(w, "", " ")
+		must(os.WriteFile(filepath.Join(dir, fmt.Sprintf("w%d-%s.json", i+1, []string{"forced-rebuild", "double-kill"}[i])), d, 0o644))
+	}
+}
+
 func main() {
 	var err error
 	self, err = os.Executable()
 	must(err)
 	if len(os.Args) > 2 && os.Args[1] == "c32-child" {
 		child(os.Args[2])
+		return
+	}
+	if len(os.Args) > 2 && os.Args[1] == "c32-dump-corpus" {
+		dumpCorpus(os.Args[2])
 		return
 	}
 	lib.Main("C32", func(c *lib.Ctx) {
